@@ -565,7 +565,9 @@ class Interp:
 
     # ------------------------------------------------------------------ exceptions
     def throw(self, cls, *args, line=None):
-        raise RaiseSig(SExc(cls, args, line=line or self.current_line))
+        e = SExc(cls, args, line=line or self.current_line)
+        e.origin = self.call_stack[-1].qualname if self.call_stack else None
+        raise RaiseSig(e)
 
     # ------------------------------------------------------------------ function calls
     def call_function(self, finfo: FuncInfo, args, kwargs, bound_cls=None):
@@ -1330,6 +1332,7 @@ class Interp:
         if not isinstance(v, SExc):
             raise Unsupported(f"raise of {v!r}")
         v.line = s.lineno
+        v.origin = fr.finfo.qualname
         raise RaiseSig(v)
 
     def st_Try(self, s, fr):
